@@ -1,7 +1,9 @@
 ---------------------------- MODULE MsgUdpTrace ----------------------------
 (* Fidelity-level trace validation: full event traces recorded from the     *)
-(* real code (results of the socket calls, the copies turmoil put on links, *)
-(* turmoil's `Delivered` events, the verif-hooks table snapshot) must be     *)
+(* real code (results of the socket calls, the copies turmoil put on links  *)
+(* and its `Delivered` events - both from turmoil's tracing output, so a    *)
+(* renamed event costs fidelity (drift), never a verdict -, the verif-hooks  *)
+(* table snapshot) must be                                                  *)
 (* behaviours of the ImplSpec MsgUdp (free interleaving); ImplInv and the   *)
 (* clauses of C09 are evaluated in every state.                             *)
 EXTENDS MsgUdp, Json, IOUtils
@@ -36,7 +38,7 @@ TSend ==
     /\ last'.nets = {<<x[1], x[2]>> : x \in SeqToSet(E.nets)} /\ Len(E.nets) = Cardinality(last'.nets)
 
 TArrive ==
-    /\ Is("arrive")
+    /\ Is("tarrive")
     /\ IF E.via = "lo"
        THEN LoDeliver(E.h) /\ last'.id = E.id /\ last'.p = E.p /\ last'.dk = E.dk
        ELSE Deliver(E.id, E.h, E.p) /\ E.dk = "host"
@@ -79,6 +81,7 @@ TNext ==
     \/ TTables
     \/ TLinks
     \/ Is("step") /\ UNCHANGED vars
+    \/ Is("arrive") /\ UNCHANGED vars      \* (verdict-level hand-over events, see MsgUdpPropTrace)
 
 TSpec == TInit /\ [][TNext]_<<vars, l>>
 
